@@ -463,6 +463,9 @@ func scaleFamily(c *Config) {
 		{scaleOpts{kind: "scale-linear", commits: n, mergePr: 1 << 30, forkPr: 0, maxHeads: 1, roots: 1, authors: 2, paths: 3, span: 1200, bigLines: big, bigEvery: 5}, true, true, 0, [][2]int{{1, 1}, {7, 1}, {7, 7}}},
 	}
 	for _, v := range vs {
+		if !quick && (v.o.kind == "scale-roots" || v.o.kind == "scale-wide") {
+			v.o.commits = 4000 // three histories of 10^4 commits are enough for one thorough run
+		}
 		in := &input{kind: v.o.kind, files: v.files, people: v.people}
 		sh := genScaleHist(rng, v.o)
 		scaleParams(rng, in, v.hib)
@@ -477,7 +480,7 @@ func scaleFamily(c *Config) {
 	}
 	if !quick {
 		// one more size between the tiers, every option drawn
-		for i := 0; i < 6; i++ {
+		for i := 0; i < 4; i++ {
 			o := scaleOpts{kind: "scale-mix", commits: 2000 + rng.Intn(2000), mergePr: 4 + rng.Intn(8), octoPr: rng.Intn(5), forkPr: 2 + rng.Intn(6),
 				maxHeads: 2 + rng.Intn(15), roots: 1 + rng.Intn(4), authors: []int{1, 2, 50}[rng.Intn(3)], paths: 3 + rng.Intn(5),
 				span: 300 + rng.Intn(3000), mergeAdds: rng.Intn(4), jitter: rng.Intn(2) == 0}
